@@ -22,6 +22,13 @@ mkdir -p "$SLOT/repo" "$SLOT/harness"
 rsync -a --delete --exclude /target --exclude /.git /repo/ "$SLOT/repo/"
 rsync -a --delete --exclude /target /verif/harness/ "$SLOT/harness/"
 sed -i "s#\"/repo/#\"$SLOT/repo/#g" "$SLOT/harness/Cargo.toml"
+# Files patched by the previous mutant in this slot were just restored by rsync with their
+# ORIGINAL (old) mtime; cargo would consider the crate built from the patched file fresh.
+# Touch them so they are rebuilt.
+if [ -f "$SLOT/last_patched" ]; then
+  while read -r f; do [ -f "$SLOT/repo/$f" ] && touch "$SLOT/repo/$f"; done < "$SLOT/last_patched"
+fi
+grep -E '^\+\+\+ ' "$PATCH" | sed -E 's#^\+\+\+ (b/)?##; s#[[:space:]].*$##' | grep -v '^/dev/null$' > "$SLOT/last_patched"
 if ! (cd "$SLOT/repo" && patch -p1 --no-backup-if-mismatch -s < "$PATCH"); then
   echo "MUTANT $PATCH: ERROR(patch does not apply)"; exit 2
 fi
